@@ -28,6 +28,26 @@ FullRangeNeverViolated == ~ByteRangeViolated(0..255, s)
 \* CIDR table: address 10.0.0.x against 10.0.0.<base>/<plen>
 Cidrs == << <<0, 30>>, <<5, 32>>, <<4, 31>>, <<5, 30>>, <<128, 25>>, <<0, 24>> >>
 CidrTable == [x \in 1..256 |-> [i \in 1..Len(Cidrs) |-> InCidr(x - 1, Cidrs[i][1], Cidrs[i][2])]]
+
+\* ---- numbers of any length: the five comparisons over long decimal texts ----
+WideBodies == << <<48>>, <<49>>, <<49,48,52,56,53,55,54>>, <<49,48,52,56,53,55,55>>,
+                 <<57,50,50,51,51,55,50,48,51,54,56,53,52,55,55,53,56,48,54>>, MaxMag64, MinMag64,
+                 <<57,50,50,51,51,55,50,48,51,54,56,53,52,55,55,53,56,48,57>>,
+                 <<57,57,57,57,57,57,57,57,57,57,57,57,57,57,57,57,57,57,57,57>>,
+                 <<49,56,52,52,54,55,52,52,48,55,51,55,48,57,53,53,49,54,49,54>>,
+                 <<49,56,52,52,54,55,52,52,48,55,51,55,48,57,53,53,49,54,49,55>>,
+                 <<48,48,48,48,48,48,48,48,48,48,48,48,48,48,48,48,48,48,48,48,48,48,49>>,
+                 <<49,48,52,56,53,55,54,120>>, <<49,101,57,57>> >>
+WideSigns == << << >>, <<45>>, <<43>> >>
+WideTexts == {WideSigns[i] \o WideBodies[j] : i \in 1..Len(WideSigns), j \in 1..Len(WideBodies)}
+WideArgs == { <<48>>, <<49,48,52,56,53,55,54>>, MaxMag64, <<45>> \o MinMag64, <<45,49>>,
+              <<57,57,57,57,57,57,57,57,57,57,57,57,57,57,57,57,57,57,57,57>> }
+WideOps == {"eq", "ge", "gt", "le", "lt"}
+WideTable == {[op |-> o, arg |-> wa, in |-> v, holds |-> WideHolds(o, wa, v), open |-> WideOpen(wa, v)] : o \in WideOps, wa \in WideArgs, v \in WideTexts}
+\* model-level: on texts short enough for TLC's own integers the two readings agree
+WideAgreesWithNarrow == \A i \in 1..Len(Pairs) : Pairs[i][1] \in WideOps => (Holds(Pairs[i][1], Pairs[i][2], s) <=> WideHolds(Pairs[i][1], Pairs[i][2], s))
+WideTrichotomy == s = << >> => \A wa \in WideArgs, v \in WideTexts : (DecLess(v, wa) /\ ~DecEq(v, wa) /\ ~DecLess(wa, v)) \/ (~DecLess(v, wa) /\ DecEq(v, wa) /\ ~DecLess(wa, v)) \/ (~DecLess(v, wa) /\ ~DecEq(v, wa) /\ DecLess(wa, v))
 Emit == /\ PrintT(<<"OUT", ToJson([in |-> s, row |-> Row, br |-> BrRow])>>)
         /\ (s = << >> => PrintT(<<"OUT", ToJson([cidr |-> CidrTable])>>))
+        /\ (s = << >> => PrintT(<<"OUT", ToJson([wide |-> WideTable])>>))
 =============================================================================
